@@ -26,6 +26,7 @@ def jObs16 (o : Obs16) (js : LJson) : LJson :=
     ("invalid", Lean.Json.bool false),
     ("schema", jRes jFields o.schema),
     ("schema_safe", jRes jFields o.schemaSafe),
+    ("param_schemas", jNamed (jRes jTree) o.paramSchemas),
     ("ser", jRes jFields o.ser),
     ("probes", Lean.Json.arr (o.probes.map fun pr =>
         Lean.Json.arr #[Lean.Json.str pr.name, jTree pr.value, Lean.Json.bool pr.accepted]).toArray),
@@ -42,6 +43,7 @@ def parseObs16 (j : LJson) : Except String Obs16 := do
     invalid := false
     schema := ← parseRes parseFields (← j.getObjVal? "schema")
     schemaSafe := ← parseRes parseFields (← j.getObjVal? "schema_safe")
+    paramSchemas := ← parseNamed (parseRes parseTree) (← j.getObjVal? "param_schemas")
     ser := ← parseRes parseFields (← j.getObjVal? "ser")
     probes := ← (← getArr j "probes").toList.mapM parseProbe
     allowNone := ← parseNamed (·.getBool?) (← j.getObjVal? "allow_none") }
